@@ -116,8 +116,15 @@ func (e Ev[M]) MarshalJSON() ([]byte, error) {
 	if e.h != nil {
 		switch e.h.prog.pfaults[e.V] {
 		case "unencodable":
-			if e.V%2 == 0 {
+			switch e.V % 3 {
+			case 0:
 				return nil, errors.New("no JSON encoding")
+			case 1:
+				// a marshaller that delegates to encoding/json for a part of the event whose dynamic value cannot be
+				// encoded (a channel behind an `any`): a *json.UnsupportedTypeError - about this value, not about the
+				// event's Go type, whose other values encode fine
+				_, err := json.Marshal(struct{ X any }{make(chan int)})
+				return nil, err
 			}
 			return []byte(`{"P":`), nil // invalid JSON with a nil error: json.Marshal must reject it
 		}
